@@ -394,7 +394,7 @@ RULE_ADDENDA = {
            "again after the return (a failing marker Save in that invocation excepted, as documented).",
     'C05': "Also: 1 in 4 histories start from a session positioned at the identifier wrap; optional restart at the end "
            "(adoption, continuation, resend order and DUP of the next process).",
-    'C06': "Also: 1 in 1200 messages has a remaining length of 2,097,151, 2,097,152 or 2,097,153 bytes (three-byte to four-byte length).",
+    'C06': "Also (full-size read buffer only): 1 in 400 messages has a remaining length of 2,097,151, 2,097,152 or 2,097,153 bytes (three-byte to four-byte length).",
     'C07': "Also: storeFault(S|L|D) on the inbound path.",
     'C08': "Also: resendFault (connection lost; a write fault 0-90 bytes into the retransmission on the next connection, of kind "
            "timeout, timeout-with-progress or reset). TestC08Loopback: a real client over TCP on 127.0.0.1 (net.Buffers through "
